@@ -236,7 +236,8 @@ def binning_params(draw, max_bins=4, methods=("linear", "comoving", "logspace", 
         methods = [m for m in methods if m != "custom"]
     method = draw(st.sampled_from(methods))
     closed = draw(closed_strategy)
-    nb = draw(st.sampled_from([127, 128, 129, 255, 256, 257, 300])) if many_bins else draw(st.integers(1, max_bins))
+    # (largest first: in short runs Hypothesis favours the first elements of sampled_from)
+    nb = draw(st.sampled_from([300, 257, 256, 255, 129, 128, 127])) if many_bins else draw(st.integers(1, max_bins))
     zmin = draw(zmin_strategy)
     if method != "comoving" and draw(st.integers(0, 19)) == 0:
         zmin = 0.0  # boundary (and falsy) value; comoving binning from z=0 is rejected by astropy
